@@ -80,41 +80,31 @@ fn input_tok(i: &Input) -> String {
     }
 }
 
-/// the validity summary of a chargeable transaction in the driver's syntax (body .. witnesses)
+/// the RAW summary of a chargeable transaction in the driver's syntax (body .. witnesses): the bytes the four hash-based
+/// sub-checks read are printed as they are (root, proof set, subsection index; salt, storage slots, the ids of every
+/// ContractCreated output; blob id; upgrade checksum; the DATA of every witness) — the driver computes the verdicts itself
+/// through the Lean models of C10 / C15 and SHA-256. Only the postcard deserialisation verdict of Upgrade (third-party
+/// decoder) is still evaluated here by the real `UpgradeMetadata::compute`.
 pub fn summary(tx: &Transaction) -> String {
+    let list = |v: Vec<String>| if v.is_empty() { "-".to_string() } else { v.join(",") };
     let body = match tx {
         Transaction::Script(t) => format!("script:{}:{}:{}", t.script_gas_limit(), t.script().len(), t.script_data().len()),
         Transaction::Create(t) => {
-            let keys = t.storage_slots().iter().map(|s| hex(&**s.key())).collect::<Vec<_>>();
-            format!("create:{}:{}", t.bytecode_witness_index(), if keys.is_empty() { "-".to_string() } else { keys.join(",") })
+            let slots = t.storage_slots().iter().map(|s| format!("{}={}", hex(&**s.key()), hex(&**s.value()))).collect::<Vec<_>>();
+            format!("create:{}:{}:{}", t.bytecode_witness_index(), hex(&**t.salt()), list(slots))
         }
         Transaction::Upgrade(t) => match *t.upgrade_purpose() {
-            UpgradePurpose::ConsensusParameters { witness_index, .. } => {
-                // the two cryptographic sub-checks, evaluated by the real `UpgradeMetadata::compute`
-                let (c, d) = match UpgradeMetadata::compute(t) {
-                    Ok(_) => (1, 1),
-                    Err(ValidityError::TransactionUpgradeConsensusParametersChecksumMismatch) => (0, 1),
-                    Err(ValidityError::TransactionUpgradeConsensusParametersDeserialization) => (1, 0),
-                    Err(_) => (1, 1),
-                };
-                format!("upgc:{witness_index}:{c}:{d}")
+            UpgradePurpose::ConsensusParameters { witness_index, checksum } => {
+                let d = !matches!(UpgradeMetadata::compute(t), Err(ValidityError::TransactionUpgradeConsensusParametersDeserialization));
+                format!("upgc:{witness_index}:{}:{}", hex(&*checksum), d as u8)
             }
             UpgradePurpose::StateTransition { .. } => "upgs".to_string(),
         },
-        Transaction::Upload(t) => {
-            let ok = t.witnesses().get(*t.bytecode_witness_index() as usize).map(|w| {
-                let proof: Vec<fuel_merkle::common::Bytes32> = t.proof_set().iter().map(|p| (*p).into()).collect();
-                fuel_merkle::binary::verify(&**t.bytecode_root(), w, &proof, *t.subsection_index() as u64, *t.subsections_number() as u64)
-            }).unwrap_or(false);
-            format!("upload:{}:{}:{}", t.bytecode_witness_index(), t.subsections_number(), ok as u8)
-        }
-        Transaction::Blob(t) => {
-            let ok = t.witnesses().get(*t.bytecode_witness_index() as usize).map(|w| BlobId::compute(w.as_ref()) == *t.blob_id()).unwrap_or(false);
-            format!("blob:{}:{}", t.bytecode_witness_index(), ok as u8)
-        }
+        Transaction::Upload(t) => format!("upload:{}:{}:{}:{}:{}", t.bytecode_witness_index(), t.subsections_number(), hex(&**t.bytecode_root()),
+            list(t.proof_set().iter().map(|p| hex(&**p)).collect()), t.subsection_index()),
+        Transaction::Blob(t) => format!("blob:{}:{}", t.bytecode_witness_index(), hex(&**t.blob_id())),
         Transaction::Mint(_) => unreachable!(),
     };
-    let created = match tx { Transaction::Create(t) => CreateMetadata::compute(t).ok(), _ => None };
     with_tx!(tx, t => {
         let p = t.policies();
         let mut s = format!("{body} {} {} {} {} {} {} {}", t.size(), opt(p.get(PolicyType::Tip)), opt(p.get(PolicyType::WitnessLimit)), opt(p.get(PolicyType::Maturity)),
@@ -129,11 +119,11 @@ pub fn summary(tx: &Transaction) -> String {
                 Output::Contract(c) => format!("contract:{}", c.input_index),
                 Output::Change { asset_id, .. } => format!("change:{}", hex(&**asset_id)),
                 Output::Variable { .. } => "variable".to_string(),
-                Output::ContractCreated { contract_id, state_root } => format!("cc:{}", created.as_ref().map(|m| (m.contract_id == *contract_id && m.state_root == *state_root) as u8).unwrap_or(0)),
+                Output::ContractCreated { contract_id, state_root } => format!("cc:{}:{}", hex(&**contract_id), hex(&**state_root)),
             });
         }
         s.push_str(&format!(" {}", t.witnesses().len()));
-        for w in t.witnesses() { s.push_str(&format!(" {}", w.as_ref().len())); }
+        for w in t.witnesses() { s.push(' '); s.push_str(&hex(w.as_ref())); }
         s
     })
 }
@@ -228,9 +218,12 @@ fn forget_unsorted(t: &mut fuel_tx::Create, f: impl FnOnce(&mut Vec<StorageSlot>
     std::mem::forget(r);
 }
 
-pub const N_MUT: usize = 58;
+/// which byte of a 32-byte id a violation flips: the first, the last, or a random one (a comparison that drops either end is seen)
+fn flip32(ctx: &mut Ctx, b: &mut [u8; 32]) { let k = match ctx.rng.below(3) { 0 => 0, 1 => 31, _ => ctx.rng.below(32) as usize }; b[k] ^= 1 << ctx.rng.below(8); }
+
+pub const N_MUT: usize = 65;
 /// violations whose applicability depends on the random shape (not on the kind) of the transaction
-const KIND_DEPENDENT_SHAPE: [usize; 16] = [4, 8, 10, 13, 16, 17, 18, 19, 20, 21, 23, 24, 25, 26, 37, 38];
+const KIND_DEPENDENT_SHAPE: [usize; 21] = [4, 8, 10, 13, 16, 17, 18, 19, 20, 21, 23, 24, 25, 26, 37, 38, 58, 59, 60, 61, 64];
 /// the violations that change a consensus-parameter limit and leave the transaction alone
 const LIMIT_MUTS: [usize; 14] = [0, 5, 9, 10, 11, 20, 21, 26, 31, 32, 35, 36, 47, 51];
 
@@ -298,12 +291,12 @@ fn mutate(ctx: &mut Ctx, k: usize, case: &mut Case) -> Option<(&'static str, &'s
         40 => { if kind == 0 { return None; } tx!(t => { let n = t.inputs().len() as u16; t.inputs_mut().push(Input::contract(UtxoId::new(Bytes32::new([9; 32]), 0), Bytes32::zeroed(), Bytes32::zeroed(), TxPointer::default(), ContractId::new([5; 32]))); t.outputs_mut().push(Output::contract(n, Bytes32::zeroed(), Bytes32::zeroed())); }); ("contract-input", "TransactionInputContainsContract") }
         41 => { if kind == 0 { return None; } tx!(t => t.inputs_mut().push(Input::message_data_signed(Address::default(), Address::default(), 3, Nonce::new([3; 32]), 0, vec![1]))); ("message-data-input", "TransactionInputContainsMessageData") }
         42 => { if kind == 0 { return None; } tx!(t => t.outputs_mut().push(Output::variable(Address::default(), 0, AssetId::default()))); ("variable-output", "TransactionOutputContainsVariable") }
-        43 => { if let Transaction::Create(t) = &mut case.tx { for o in t.outputs_mut().iter_mut() { if let Output::ContractCreated { contract_id, .. } = o { let mut b = **contract_id; b[ctx.rng.below(32) as usize] ^= 1 << ctx.rng.below(8); *contract_id = ContractId::new(b); } } ("create-contract-id", "TransactionCreateOutputContractCreatedDoesntMatch") } else { return None } }
-        44 => { if let Transaction::Create(t) = &mut case.tx { for o in t.outputs_mut().iter_mut() { if let Output::ContractCreated { state_root, .. } = o { let mut b = **state_root; b[31] ^= 1; *state_root = Bytes32::new(b); } } ("create-state-root", "TransactionCreateOutputContractCreatedDoesntMatch") } else { return None } }
+        43 => { if let Transaction::Create(t) = &mut case.tx { for o in t.outputs_mut().iter_mut() { if let Output::ContractCreated { contract_id, .. } = o { let mut b = **contract_id; flip32(ctx, &mut b); *contract_id = ContractId::new(b); } } ("create-contract-id", "TransactionCreateOutputContractCreatedDoesntMatch") } else { return None } }
+        44 => { if let Transaction::Create(t) = &mut case.tx { for o in t.outputs_mut().iter_mut() { if let Output::ContractCreated { state_root, .. } = o { let mut b = **state_root; flip32(ctx, &mut b); *state_root = Bytes32::new(b); } } ("create-state-root", "TransactionCreateOutputContractCreatedDoesntMatch") } else { return None } }
         45 => { if let Transaction::Create(t) = &mut case.tx { let o = t.outputs().iter().find(|o| o.is_contract_created()).cloned()?; t.outputs_mut().push(o); ("create-two-created", "TransactionCreateOutputContractCreatedMultiple") } else { return None } }
         46 => { if let Transaction::Create(t) = &mut case.tx { t.outputs_mut().retain(|o| !o.is_contract_created()); ("create-none-created", "TransactionOutputDoesntContainContractCreated") } else { return None } }
         47 => { if kind != 2 { return None; } lim.privileged = Address::new(ctx.rng.arr32()); ("upgrade-privileged", "TransactionUpgradeNoPrivilegedAddress") }
-        48 => { if let Transaction::Upgrade(t) = &mut case.tx { if let UpgradePurpose::ConsensusParameters { checksum, .. } = t.upgrade_purpose_mut() { let mut b = **checksum; b[0] ^= 0x80; *checksum = Bytes32::new(b); ("upgrade-checksum", "TransactionUpgradeConsensusParametersChecksumMismatch") } else { return None } } else { return None } }
+        48 => { if let Transaction::Upgrade(t) = &mut case.tx { if let UpgradePurpose::ConsensusParameters { checksum, .. } = t.upgrade_purpose_mut() { let mut b = **checksum; flip32(ctx, &mut b); *checksum = Bytes32::new(b); ("upgrade-checksum", "TransactionUpgradeConsensusParametersChecksumMismatch") } else { return None } } else { return None } }
         49 => { if let Transaction::Upgrade(t) = &mut case.tx { let n = t.witnesses().len() as u16; if let UpgradePurpose::ConsensusParameters { witness_index, .. } = t.upgrade_purpose_mut() { *witness_index = n; ("upgrade-witness-index", "InputWitnessIndexBounds") } else { return None } } else { return None } }
         50 => { if let Transaction::Upgrade(t) = &mut case.tx { let junk = ctx.rng.bytes(40); let sum = fuel_crypto::Hasher::hash(&junk);
             let wi = if let UpgradePurpose::ConsensusParameters { witness_index, checksum } = t.upgrade_purpose_mut() { *checksum = sum; *witness_index } else { return None };
@@ -312,9 +305,9 @@ fn mutate(ctx: &mut Ctx, k: usize, case: &mut Case) -> Option<(&'static str, &'s
             ("upgrade-deserialization", "TransactionUpgradeConsensusParametersDeserialization") } else { return None } }
         51 => { if let Transaction::Upload(t) = &case.tx { let n = *t.subsections_number(); if n == 0 { return None; } lim.max_subsections = n - 1; ("upload-subsections", "TransactionUploadTooManyBytecodeSubsections") } else { return None } }
         52 => { if let Transaction::Upload(t) = &mut case.tx { *t.bytecode_witness_index_mut() = t.witnesses().len() as u16; ("upload-witness-index", "InputWitnessIndexBounds") } else { return None } }
-        53 => { if let Transaction::Upload(t) = &mut case.tx { let mut b = **t.bytecode_root(); b[ctx.rng.below(32) as usize] ^= 4; *t.bytecode_root_mut() = Bytes32::new(b); ("upload-root", "TransactionUploadRootVerificationFailed") } else { return None } }
+        53 => { if let Transaction::Upload(t) = &mut case.tx { let mut b = **t.bytecode_root(); flip32(ctx, &mut b); *t.bytecode_root_mut() = Bytes32::new(b); ("upload-root", "TransactionUploadRootVerificationFailed") } else { return None } }
         54 => { if let Transaction::Blob(t) = &mut case.tx { *t.bytecode_witness_index_mut() = t.witnesses().len() as u16; ("blob-witness-index", "InputWitnessIndexBounds") } else { return None } }
-        55 => { if let Transaction::Blob(t) = &mut case.tx { let mut b = **t.blob_id(); b[0] ^= 1; *t.blob_id_mut() = BlobId::new(b); ("blob-id", "TransactionBlobIdVerificationFailed") } else { return None } }
+        55 => { if let Transaction::Blob(t) = &mut case.tx { let mut b = **t.blob_id(); flip32(ctx, &mut b); *t.blob_id_mut() = BlobId::new(b); ("blob-id", "TransactionBlobIdVerificationFailed") } else { return None } }
         // ---- balances ----
         56 => {
             // the fee limit exceeds the base-asset inputs by one (needs headroom below u64::MAX)
@@ -332,6 +325,18 @@ fn mutate(ctx: &mut Ctx, k: usize, case: &mut Case) -> Option<(&'static str, &'s
             tx!(t => t.outputs_mut().push(Output::coin(Address::default(), left as u64 + 1, asset)));
             ("coin-exceeds-inputs", "InsufficientInputAmount")
         }
+        // ---- the bytes the hash-based sub-checks read (the Lean side recomputes the verdicts from them) ----
+        58 => { if let Transaction::Upload(t) = &mut case.tx { if t.proof_set().is_empty() { return None; } let k = ctx.rng.below(t.proof_set().len() as u64) as usize; let mut b = *t.proof_set()[k]; flip32(ctx, &mut b); t.proof_set_mut()[k] = Bytes32::new(b); ("upload-proof-element", "TransactionUploadRootVerificationFailed") } else { return None } }
+        59 => { if let Transaction::Upload(t) = &mut case.tx { let n = *t.subsections_number(); if n < 2 { return None; } let i = *t.subsection_index(); *t.subsection_index_mut() = if ctx.rng.chance(1, 2) { (i + 1) % n } else { n + ctx.rng.below(3) as u16 }; ("upload-subsection-index", "TransactionUploadRootVerificationFailed") } else { return None } }
+        60 => { if let Transaction::Upload(t) = &mut case.tx { if t.proof_set().is_empty() { return None; } if ctx.rng.chance(1, 2) { t.proof_set_mut().pop(); } else { let e = t.proof_set()[0]; t.proof_set_mut().push(e); } t.policies_mut().set(PolicyType::WitnessLimit, None); ("upload-proof-length", "TransactionUploadRootVerificationFailed") } else { return None } }
+        61 => { let wi = match &case.tx { Transaction::Upload(t) => *t.bytecode_witness_index(), Transaction::Blob(t) => *t.bytecode_witness_index(), _ => return None } as usize;
+            let is_upload = matches!(case.tx, Transaction::Upload(_));
+            let ok = tx!(t => { let mut d = t.witnesses()[wi].as_vec().clone(); if d.is_empty() { false } else { let k = ctx.rng.below(d.len() as u64) as usize; d[k] ^= 1 << ctx.rng.below(8); t.witnesses_mut()[wi] = Witness::from(d); true } });
+            if !ok { return None; }
+            if is_upload { ("upload-witness-byte", "TransactionUploadRootVerificationFailed") } else { ("blob-witness-byte", "TransactionBlobIdVerificationFailed") } }
+        62 => { if let Transaction::Create(t) = &mut case.tx { let wi = *t.bytecode_witness_index() as usize; let mut d = t.witnesses()[wi].as_vec().clone(); if d.is_empty() { d.push(1); t.policies_mut().set(PolicyType::WitnessLimit, None); } else { let k = ctx.rng.below(d.len() as u64) as usize; d[k] ^= 1 << ctx.rng.below(8); } t.witnesses_mut()[wi] = Witness::from(d); ("create-bytecode-byte", "TransactionCreateOutputContractCreatedDoesntMatch") } else { return None } }
+        63 => { if let Transaction::Create(t) = &mut case.tx { let mut b = **t.salt(); flip32(ctx, &mut b); *t.salt_mut() = fuel_types::Salt::new(b); ("create-salt", "TransactionCreateOutputContractCreatedDoesntMatch") } else { return None } }
+        64 => { if let Transaction::Create(t) = &mut case.tx { if t.storage_slots().is_empty() { return None; } forget_unsorted(t, |v| { let k = *v[0].key(); let mut x = **v[0].value(); x[31] ^= 1; v[0] = StorageSlot::new(k, Bytes32::new(x)); }); ("create-slot-value", "TransactionCreateOutputContractCreatedDoesntMatch") } else { return None } }
         _ => return None,
     })
 }
